@@ -6,6 +6,7 @@ import os
 import time
 import zipfile
 from typing import Any, Dict, Optional
+from xml.sax.saxutils import escape
 
 import jinja2
 
@@ -43,7 +44,9 @@ def make_xml_attrib(attrib_name: str, attrib_val: Optional[Any]) -> str:
     if attrib_val is None:
         return ""
 
-    return f' {attrib_name}="{attrib_val}"'
+    escaped_val = escape(str(attrib_val), {'"': "&quot;"})
+
+    return f' {attrib_name}="{escaped_val}"'
 
 
 def make_bool_xml_attrib(attrib_name: str, attrib_val: Optional[bool]) -> str:
